@@ -315,6 +315,23 @@ func dispatch(l []byte, gc genericCase) childRes {
 		}
 		return childRes{N: row.N, Status: rr.status, Key: rr.key, Detail: rr.detail, Class: garbageClass(&row), Obs: rr.obs}
 	}
+	if gc.Prop == "C17" {
+		var c ECase
+		if err := json.Unmarshal(l, &c); err != nil {
+			return childRes{N: gc.N, Status: "inconclusive", Detail: "bad case: " + err.Error()}
+		}
+		var rr runResult
+		for try := 0; try < 2; try++ {
+			if rr = runExpire(&c); rr.status != "inconclusive" {
+				break
+			}
+		}
+		sig := ""
+		for _, st := range c.Steps {
+			sig += fmt.Sprintf("%s%d@%d,", st.Act[:1], st.T, st.Now)
+		}
+		return childRes{N: c.N, Status: rr.status, Key: rr.key, Detail: rr.detail, Class: fmt.Sprintf("C17/%s/%s/%s/%s", c.Side, c.Policy, c.Mode, sig), Obs: rr.obs}
+	}
 	switch gc.Prop {
 	case "C10", "C09", "C12", "C13":
 		var b Beh
